@@ -405,7 +405,7 @@ def check_resample(p, q, res):
     msgs = []
     g = math.gcd(p, q)
     pr, qr = p // g, q // g
-    for n in (1, 2, 3, 7, 20, 33):
+    for n in (1, 2, 3, 7, 20, 27, 33, 54):  # (27, 54: n*p/q is an integer whose float product overshoots for 7/3 and 7/6)
         for pts in (1, 3, 10):
             case = dict(part="resample", p=p, q=q, n=n, pts=pts)
             nout = -(-n * p // q)
@@ -876,7 +876,7 @@ def shards(tier, seed):
             out.append(dict(part="area3", f0=f0, p0=p0, s0=s0))
     for sc in ("lin1", "lin.1", "linspace", "lin.25", "oct3", "oct6x", "log"):
         out.append(dict(part="rescale", scale=sc))
-    for p, q in itertools.product(range(1, 7), repeat=2):
+    for p, q in itertools.product(range(1, 8), repeat=2):
         out.append(dict(part="resample", p=p, q=q))
     Lmax = 5 if tier == "quick" else 6
     for L in range(1, Lmax + 1):
